@@ -20,7 +20,7 @@ theorem C02_sep_copy_chunking_independent (sep : Bytes) (limit : Nat) (ke : Bool
   have R := RU.refines sep limit ke hsep
   have L := RU.spec_laws sep limit ke hsep
   have hsim := Consumer.run_ref R chunks Consumer.new [] (Or.inl ⟨rfl, rfl⟩)
-  have hind := refRun_chunk_independent L chunks [] (Or.inl rfl) (by simpa using hsafe)
+  have hind := refRun_chunk_independent L chunks [] (Or.inl rfl) (AllOk_of_NoLimit _ (by simpa using hsafe))
   simp only [List.nil_append] at hind
   rw [hind] at hsim
   refine ⟨hsim.1, ?_⟩
@@ -49,5 +49,110 @@ theorem C02_one_item_per_frame (sep : Bytes) (limit : Nat) (ke : Bool) (hsep : s
 /-- non-vacuity: an undecodable payload (0xff) followed by a good one, cut inside the separator -/
 example : NoLimit (decodeW (RU.spec [13, 10] 8 false) ([[255, 13], [10, 97, 13, 10]] : List Bytes).flatten).2 := by
   decide +kernel
+
+/-- **C02 sentence 1, buffered path.**  For every byte stream whose one-go decoding reports no size error and whose
+    frames are safely inside the buffer (`|payload| + |sep| < cap`; payloads may be undecodable), every history of
+    fitting fills yields exactly the frame-by-frame decoding of the stream. -/
+theorem C02_sep_buffered_chunking_independent (sep : Bytes) (cap : Nat) (ke : Bool) (hsep : sep ≠ []) (hcap : 0 < cap)
+    (fills : List Bytes)
+    (hsafe : AllOk (BRU.okFrame sep cap ke) (decodeW (BRU.spec sep cap ke) fills.flatten).2)
+    (r : BufConsumer BRUState × List Item)
+    (hrun : BufConsumer.runFills BRU.init 0 cap (BRU.feed true sep ke) BufConsumer.new fills = some r) :
+    r.2 = (decodeW (BRU.spec sep cap ke) fills.flatten).2 ∧
+    BufConsumer.Rel (·.buflen) (BRU.spec sep cap ke) (BRU.Inv sep cap) cap r.1
+      (decodeW (BRU.spec sep cap ke) fills.flatten).1 := by
+  have R := BRU.refines sep cap ke hsep
+  have L := BRU.spec_laws sep cap ke hsep
+  have hnew : BufConsumer.Rel (·.buflen) (BRU.spec sep cap ke) (BRU.Inv sep cap) cap
+      (BufConsumer.new : BufConsumer BRUState) [] :=
+    ⟨rfl, Or.inl ⟨rfl, rfl, rfl, Or.inl rfl⟩⟩
+  have hsim := BufConsumer.runFills_ref cap R hcap fills BufConsumer.new [] hnew r hrun
+  have hind := refRun_chunk_independent L fills [] (Or.inl rfl) (by simpa using hsafe)
+  simp only [List.nil_append] at hind
+  rw [hind] at hsim
+  exact hsim
+
+/-- the two byte-level specs agree on streams that are safe for the buffered path (limit = capacity) -/
+theorem decodeW_paths_agree (sep : Bytes) (limit : Nat) (ke : Bool) (hsep : sep ≠ []) (S : Bytes)
+    (hsafe : AllOk (BRU.okFrame sep limit ke) (decodeW (BRU.spec sep limit ke) S).2) :
+    decodeW (RU.spec sep limit ke) S = decodeW (BRU.spec sep limit ke) S := by
+  have hpos : 0 < sep.length := List.length_pos_iff.mpr hsep
+  have LR := RU.spec_laws sep limit ke hsep
+  have LB := BRU.spec_laws sep limit ke hsep
+  suffices H : ∀ n (S : Bytes), S.length ≤ n →
+      AllOk (BRU.okFrame sep limit ke) (decodeW (BRU.spec sep limit ke) S).2 →
+      decodeW (RU.spec sep limit ke) S = decodeW (BRU.spec sep limit ke) S from H S.length S (Nat.le_refl _) hsafe
+  intro n
+  induction n with
+  | zero =>
+    intro S hS _
+    have : S = [] := List.eq_nil_of_length_eq_zero (by omega)
+    subst this
+    rw [decodeW_unfold LR, decodeW_unfold LB]; simp
+  | succ n ih =>
+    intro S hS hok
+    rw [decodeW_unfold LR, decodeW_unfold LB]
+    by_cases hb : S.isEmpty
+    · simp [hb]
+    · simp only [hb, Bool.false_eq_true, if_false]
+      have hunf := decodeW_unfold LB S
+      simp only [hb, Bool.false_eq_true, if_false] at hunf
+      cases hf : firstOcc sep S with
+      | some i =>
+        have hs := findIn_some _ _ _ _ _ (by unfold firstOcc findFrom at hf; exact hf)
+        have hB : BRU.spec sep limit ke S
+            = .done (S.take (if ke then i + sep.length else i)) (S.drop (i + sep.length)) := by
+          unfold BRU.spec; rw [hf]
+        rw [hB] at hunf
+        have hokd := hok (Item.frame (S.take (if ke then i + sep.length else i))) (by rw [hunf]; simp)
+        simp only [BRU.okFrame] at hokd
+        have hi : ¬ (i > limit) := by
+          cases ke
+          · simp only [Bool.false_eq_true, if_false, List.length_take] at hokd; omega
+          · simp only [if_true, List.length_take] at hokd; omega
+        have hR : RU.spec sep limit ke S
+            = .done (S.take (if ke then i + sep.length else i)) (S.drop (i + sep.length)) := by
+          unfold RU.spec; rw [hf]; simp only [hi, if_false]
+        rw [hR, hB]
+        simp only
+        have hrl : (S.drop (i + sep.length)).length ≤ n := by simp; omega
+        have hok' : AllOk (BRU.okFrame sep limit ke) (decodeW (BRU.spec sep limit ke) (S.drop (i + sep.length))).2 := by
+          intro it hit; apply hok; rw [hunf]; simp [hit]
+        rw [ih _ hrl hok']
+      | none =>
+        have hB : BRU.spec sep limit ke S = .need := by
+          cases hBs : BRU.spec sep limit ke S with
+          | need => rfl
+          | done d r => unfold BRU.spec at hBs; rw [hf] at hBs; simp only at hBs; split at hBs <;> cases hBs
+          | fail r =>
+            rw [hBs] at hunf
+            exact absurd (hok Item.limit (by rw [hunf]; simp)) (by simp)
+        have hR : RU.spec sep limit ke S = .need := by
+          unfold BRU.spec at hB; rw [hf] at hB; simp only at hB
+          unfold RU.spec; rw [hf]; simp only
+          split at hB
+          · cases hB
+          · rename_i hl
+            have : ¬ (S.length + 1 - sep.length > limit) := by omega
+            simp [this]
+        rw [hR, hB]
+
+/-- **C02 sentence 1, both receive paths.**  On a stream that is safe for the buffered path, the copying consumer
+    (any chunking) and the buffer-filling consumer (any fitting fills) deliver the same items: the frame-by-frame
+    decoding of the stream. -/
+theorem C02_sep_paths_agree (sep : Bytes) (limit : Nat) (ke : Bool) (hsep : sep ≠ []) (hlim : 0 < limit)
+    (chunks fills : List Bytes) (hsame : chunks.flatten = fills.flatten)
+    (hsafe : AllOk (BRU.okFrame sep limit ke) (decodeW (BRU.spec sep limit ke) fills.flatten).2)
+    (r : BufConsumer BRUState × List Item)
+    (hrun : BufConsumer.runFills BRU.init 0 limit (BRU.feed true sep ke) BufConsumer.new fills = some r) :
+    (Consumer.run RU.init (RU.feed sep limit ke) Consumer.new chunks).2 = r.2 := by
+  have hagree := decodeW_paths_agree sep limit ke hsep fills.flatten hsafe
+  have hnl : NoLimit (decodeW (RU.spec sep limit ke) chunks.flatten).2 := by
+    rw [hsame, hagree]
+    intro it hit heq
+    subst heq
+    exact absurd (hsafe Item.limit hit) (by simp)
+  rw [(C02_sep_copy_chunking_independent sep limit ke hsep chunks hnl).1,
+      (C02_sep_buffered_chunking_independent sep limit ke hsep hlim fills hsafe r hrun).1, hsame, hagree]
 
 end EasyNet
